@@ -135,7 +135,7 @@ def stepLine (_ : Unit) (toks : List String) : Unit × String :=
       let nbad : Nat := (segs.map (fun ts => ((strip ts).filter (fun t => (parseOp t).isNone)).length)).foldl (· + ·) 0
       if nbad > 0 then ((), "bad-op")
       else ((), Prog.render cfg { limits := parseNats limits, fibers := fibs, rng := parseNats rng, sups := segs.map supOf,
-                                   clockStart := 100000, clockStep := 16 })
+                                   clockStart := 100000, clockStep := 16 } maxQCapacity)
   | "Q" :: ops => ((), runQ ops)
   | "M" :: ops => ((), runM ops)
   | _ => ((), "bad-op")
